@@ -45,10 +45,10 @@ FileNode(ino) == [kind |-> "file", ino |-> ino]
 FileAt(s, p) == s.files[s.fs[p].ino]
 
 Init0 == [fs |-> <<>>, files |-> <<>>,
-          fds |-> <<[st |-> "std", kind |-> "file", path |-> "", ino |-> 0, pos |-> Z8, app |-> FALSE, rd |-> TRUE, wr |-> FALSE],
-                    [st |-> "std", kind |-> "file", path |-> "", ino |-> 0, pos |-> Z8, app |-> FALSE, rd |-> FALSE, wr |-> TRUE],
-                    [st |-> "std", kind |-> "file", path |-> "", ino |-> 0, pos |-> Z8, app |-> FALSE, rd |-> FALSE, wr |-> TRUE],
-                    [st |-> "preopen", kind |-> "dir", path |-> "", ino |-> 0, pos |-> Z8, app |-> FALSE, rd |-> TRUE, wr |-> FALSE]>>]
+          fds |-> <<[st |-> "std", kind |-> "file", path |-> "", pseq |-> <<>>, ino |-> 0, pos |-> Z8, app |-> FALSE, rd |-> TRUE, wr |-> FALSE],
+                    [st |-> "std", kind |-> "file", path |-> "", pseq |-> <<>>, ino |-> 0, pos |-> Z8, app |-> FALSE, rd |-> FALSE, wr |-> TRUE],
+                    [st |-> "std", kind |-> "file", path |-> "", pseq |-> <<>>, ino |-> 0, pos |-> Z8, app |-> FALSE, rd |-> FALSE, wr |-> TRUE],
+                    [st |-> "preopen", kind |-> "dir", path |-> "", pseq |-> <<>>, ino |-> 0, pos |-> Z8, app |-> FALSE, rd |-> TRUE, wr |-> FALSE]>>]
 
 Live(s, fd) == fd >= 0 /\ fd < Len(s.fds) /\ s.fds[fd + 1].st # "closed"
 FdOf(s, fd) == s.fds[fd + 1]
@@ -89,6 +89,37 @@ SelfLoop(s, q) == Exists(s, q) /\ s.fs[q].kind = "link" /\ s.fs[q].target = q
 Missing(s, pp) == IF Exists(s, pp) /\ s.fs[pp].kind = "file" THEN ENOTDIR
                   ELSE IF SelfLoop(s, pp) THEN ELOOP
                   ELSE IF Exists(s, pp) /\ s.fs[pp].kind = "link" THEN EUNSPEC ELSE ENOENT
+(* Path resolution as the host does it (POSIX 4.13), for guest paths with "." and ".." components and symbolic links to
+   directories on the way: walk mode (c.walk).  The binder splits the guest path into the components that lead to the
+   directory of the last name (c.wcomps) and that name (c.wlast, "" when the whole path denotes a directory - it ends in
+   "..", in a link to a directory, ...).  Every component on the way must resolve to a directory: "." stays, ".." goes to
+   the parent, a name that is a symbolic link continues at its target (relative to the directory the link lies in), at
+   most MaxLinks deep - a cycle ends in ELOOP.  Leaving the sandbox upwards leaves the model (EUNSPEC).  Directories are
+   sequences of names here; the file system is keyed by their "/"-joined text.  Calls in the older form (c.walk FALSE)
+   carry paths the binder has already normalised. *)
+MaxLinks == 8
+RECURSIVE JoinSeq(_)
+JoinSeq(q) == IF q = <<>> THEN "" ELSE IF Len(q) = 1 THEN q[1] ELSE JoinSeq(SubSeq(q, 1, Len(q) - 1)) \o "/" \o q[Len(q)]
+WOk(q) == [err |-> ESUCCESS, seq |-> q]
+WErr(e) == [err |-> e, seq |-> <<>>]
+RECURSIVE WalkDir(_, _, _, _)
+WalkDir(s, cur, comps, depth) ==
+    IF comps = <<>> THEN WOk(cur)
+    ELSE LET x == Head(comps)  rest == Tail(comps) IN
+         IF x = "." THEN WalkDir(s, cur, rest, depth)
+         ELSE IF x = ".." THEN (IF cur = <<>> THEN WErr(EUNSPEC) ELSE WalkDir(s, SubSeq(cur, 1, Len(cur) - 1), rest, depth))
+         ELSE LET q == JoinSeq(Append(cur, x)) IN
+              IF ~Exists(s, q) THEN WErr(ENOENT)
+              ELSE IF s.fs[q].kind = "dir" THEN WalkDir(s, Append(cur, x), rest, depth)
+              ELSE IF s.fs[q].kind = "file" THEN WErr(ENOTDIR)
+              ELSE IF depth >= MaxLinks THEN WErr(ELOOP)
+              ELSE IF s.fs[q].tabs THEN WErr(EUNSPEC)                      \* an absolute target leads out of the sandbox
+              ELSE LET t == WalkDir(s, cur, s.fs[q].tcomps, depth + 1)
+                   IN  IF t.err # ESUCCESS THEN t ELSE WalkDir(s, t.seq, rest, depth)
+\* the directory in which the last name of a walk-mode call is looked up
+WalkOf(s, c, d) == WalkDir(s, IF c.abs THEN <<>> ELSE d.pseq, c.wcomps, 0)
+LinkNode(c) == [kind |-> "link", target |-> c.target, tcomps |-> c.tcomps, tabs |-> c.tabs]
+
 (* path_open: oflags bits creat 1, directory 2, excl 4, trunc 8; c.rd / c.wr from the rights; c.app from fdflags *)
 PathOpen(s, c) ==
     IF ~Live(s, c.dirfd) THEN Res(s, EBADF, NoOut)
@@ -97,27 +128,34 @@ PathOpen(s, c) ==
     ELSE IF c.path = "" /\ ~c.dot THEN Res(s, EINVAL, NoOut)
     ELSE IF d.kind = "file" THEN Res(s, ENOTDIR, NoOut)
     ELSE
-    LET p == IF c.abs THEN c.path ELSE Join(d.path, c.path)
+    LET w == IF c.walk THEN WalkOf(s, c, d) ELSE WOk(<<>>)
+        p == IF c.walk THEN JoinSeq(IF c.wlast = "" THEN w.seq ELSE Append(w.seq, c.wlast))
+             ELSE IF c.abs THEN c.path ELSE Join(d.path, c.path)
+        \* the directory the last name lies in
+        par == IF c.walk THEN JoinSeq(w.seq) ELSE Join(IF c.abs THEN "" ELSE d.path, c.parent)
+        pseq == IF c.walk THEN (IF c.wlast = "" THEN w.seq ELSE Append(w.seq, c.wlast)) ELSE (IF c.abs THEN <<>> ELSE d.pseq) \o c.pseq
+        isdot == c.dot \/ (c.walk /\ c.wlast = "")
         creat == c.oflags % 2 = 1
         dirf  == (c.oflags \div 2) % 2 = 1
         excl  == (c.oflags \div 4) % 2 = 1
         trunc == (c.oflags \div 8) % 2 = 1
         newfd == Len(s.fds)
-        entry(kind, ino) == [st |-> "open", kind |-> kind, path |-> p, ino |-> ino, pos |-> Z8, app |-> c.app, rd |-> c.rd \/ ~c.wr, wr |-> c.wr]
+        entry(kind, ino) == [st |-> "open", kind |-> kind, path |-> p, pseq |-> pseq, ino |-> ino, pos |-> Z8, app |-> c.app, rd |-> c.rd \/ ~c.wr, wr |-> c.wr]
     IN  \* a trailing slash demands a directory: on a regular file the host refuses (ENOTDIR; EISDIR when asked to create),
         \* on a missing name it cannot create a file; symbolic links are followed by the host (not modelled)
         \* O_CREAT together with O_DIRECTORY is refused outright by this host (Linux >= 6.4), whatever the name denotes
         IF creat /\ dirf THEN Res(s, EINVAL, NoOut)
+        ELSE IF w.err # ESUCCESS THEN Res(s, w.err, NoOut)
         \* a path whose last component is "." (c.dot; c.path is the directory it denotes, "" being the descriptor's own):
         \* the directory itself, which must exist; it can be opened for reading only
-        ELSE IF c.dot THEN
+        ELSE IF isdot THEN
             (IF ~IsDir(s, p) THEN Res(s, Missing(s, p), NoOut)
              ELSE IF creat /\ excl THEN Res(s, EEXIST, NoOut)
              ELSE IF c.wr \/ creat \/ trunc THEN Res(s, EISDIR, NoOut)
              ELSE Res([s EXCEPT !.fds = Append(@, entry("dir", 0))], ESUCCESS, [fd |-> newfd]))
         ELSE IF c.slash /\ Exists(s, p) /\ s.fs[p].kind = "link" THEN Res(s, EUNSPEC, NoOut)
         ELSE IF c.slash /\ Exists(s, p) /\ s.fs[p].kind = "file" THEN Res(s, IF creat THEN EISDIR ELSE ENOTDIR, NoOut)
-        ELSE IF c.slash /\ ~Exists(s, p) /\ creat /\ IsDir(s, Join(IF c.abs THEN "" ELSE d.path, c.parent)) THEN Res(s, EISDIR, NoOut)
+        ELSE IF c.slash /\ ~Exists(s, p) /\ creat /\ IsDir(s, par) THEN Res(s, EISDIR, NoOut)
         ELSE IF Exists(s, p) THEN
             IF creat /\ excl THEN Res(s, EEXIST, NoOut)
             ELSE IF SelfLoop(s, p) THEN Res(s, ELOOP, NoOut)
@@ -128,8 +166,8 @@ PathOpen(s, c) ==
             ELSE IF dirf THEN Res(s, ENOTDIR, NoOut)
             ELSE LET s2 == IF trunc THEN [s EXCEPT !.files[s.fs[p].ino] = EmptyFile] ELSE s
                  IN  Res([s2 EXCEPT !.fds = Append(@, entry("file", s.fs[p].ino))], ESUCCESS, [fd |-> newfd])
-        ELSE IF ~creat THEN Res(s, Missing(s, Join(IF c.abs THEN "" ELSE d.path, c.parent)), NoOut)
-        ELSE IF ~IsDir(s, Join(IF c.abs THEN "" ELSE d.path, c.parent)) THEN Res(s, Missing(s, Join(IF c.abs THEN "" ELSE d.path, c.parent)), NoOut)
+        ELSE IF ~creat THEN Res(s, Missing(s, par), NoOut)
+        ELSE IF ~IsDir(s, par) THEN Res(s, Missing(s, par), NoOut)
         ELSE IF dirf THEN Res(s, EINVAL, NoOut)               \* O_CREAT | O_DIRECTORY: Linux refuses
         ELSE Res([s EXCEPT !.fs = SetF(@, p, FileNode(Len(s.files) + 1)), !.files = Append(@, EmptyFile),
                            !.fds = Append(@, entry("file", Len(s.files) + 1))], ESUCCESS, [fd |-> newfd])
@@ -235,11 +273,16 @@ PathOp(s, c) ==
     ELSE IF c.path = "" /\ ~c.dot THEN Res(s, EINVAL, NoOut)
     ELSE IF d.kind = "file" THEN Res(s, EUNSPEC, NoOut)
     ELSE
-    LET p == Join(d.path, c.path)
+    LET w == IF c.walk THEN WalkOf(s, c, d) ELSE WOk(<<>>)
+        p == IF c.walk THEN JoinSeq(Append(w.seq, c.wlast)) ELSE Join(d.path, c.path)
         under == {c.under[j] : j \in DOMAIN c.under}
-        pp == Join(d.path, c.parent)
+        pp == IF c.walk THEN JoinSeq(w.seq) ELSE Join(d.path, c.parent)
         parentOK == IsDir(s, pp)
     IN  IF c.call = "readlink" /\ c.buflen = 0 THEN Res(s, EUNSPEC, NoOut)          \* a zero-sized buffer: the host decides
+        ELSE IF w.err # ESUCCESS THEN Res(s, w.err, NoOut)
+        \* (walk mode is not used for rename, for a last component that is not a plain name, nor for removing non-empty directories)
+        ELSE IF c.walk /\ (c.call = "rename" \/ c.wlast = "") THEN Res(s, EUNSPEC, NoOut)
+        ELSE IF c.walk /\ c.call = "rmdir" /\ Exists(s, p) /\ s.fs[p].kind = "dir" /\ (\E q \in DOMAIN s.fs : Len(q) > Len(p) /\ SubSeq(q, 1, Len(p) + 1) = p \o "/") THEN Res(s, ENOTEMPTY, NoOut)
         \* a path whose last component is "." (with or without trailing slashes) names a directory THROUGH ITSELF: the host
         \* refuses to remove, replace or move an entry it is given in this form, and the answer differs from the one for
         \* the same directory named by a trailing slash (rmdir "d/" removes d, rmdir "d/." is EINVAL)
@@ -290,7 +333,7 @@ PathOp(s, c) ==
           [] c.call = "symlink" ->
                IF Exists(s, p) THEN Res(s, EEXIST, NoOut)
                ELSE IF ~parentOK THEN Res(s, Missing(s, pp), NoOut)
-               ELSE Res([s EXCEPT !.fs = SetF(@, p, [kind |-> "link", target |-> c.target])], ESUCCESS, NoOut)
+               ELSE Res([s EXCEPT !.fs = SetF(@, p, LinkNode(c))], ESUCCESS, NoOut)
           [] c.call = "readlink" ->
                IF c.buflen = 0 THEN Res(s, EUNSPEC, NoOut)              \* a zero-sized buffer: the host decides
                ELSE IF ~Exists(s, p) THEN Res(s, Missing(s, pp), NoOut)
@@ -328,7 +371,7 @@ Call(s, c) ==
       [] c.call \in {"mkdir", "rmdir", "unlink", "readlink", "pathstat", "symlink", "rename"} -> PathOp(s, c)
       [] c.call = "mkfile"   -> Res([s EXCEPT !.fs = SetF(@, c.path, FileNode(Len(s.files) + 1)),
                                                  !.files = Append(@, PutAt(EmptyFile, Z8, c.bytes))], ESUCCESS, NoOut)   \* scenario setup
-      [] c.call = "mklink"   -> Res([s EXCEPT !.fs = SetF(@, c.path, [kind |-> "link", target |-> c.target])], ESUCCESS, NoOut)
+      [] c.call = "mklink"   -> Res([s EXCEPT !.fs = SetF(@, c.path, LinkNode(c))], ESUCCESS, NoOut)
       [] c.call = "mkdirs"   -> Res([s EXCEPT !.fs = SetF(@, c.path, [kind |-> "dir"])], ESUCCESS, NoOut)
 
 ----------------------------------------------------------------------------
